@@ -111,8 +111,8 @@ def run_case(p, case, rng, rnd, dense_too=True, built=None):
         else:
             want[k] = 1
         got = np.broadcast_to(np.asarray(v, dtype=float), (K,))
-        if not np.array_equal(got, want):
-            j = int(np.argmax(got != want))
+        if not np.allclose(got, want, rtol=0, atol=1e-9):
+            j = int(np.argmax(np.abs(got - want)))
             bad.append(("wrong-value", "stabilizer %s: for the state (I + %s)/2^n the value reported under key %s is %s, exact value %s"
                         % (ws.strings(gens, n), to_str((j & (2 ** n - 1), j >> n, 0), n, False), to_str((x, z, 0), n, False), got[j], want[j])))
     p.counters["values compared (key x basis state)"] += len(got_keys) * K
